@@ -4,6 +4,7 @@
 package c01
 
 import (
+	"encoding/json"
 	"fmt"
 	"os"
 	"sort"
@@ -269,3 +270,30 @@ func failWith(out ev.Outcome, format string, a ...any) ev.Outcome {
 func TestProp(t *testing.T)   { ev.Prop(t, false, genCase, check) }
 func TestReplay(t *testing.T) { ev.Replay(t, check) }
 func FuzzC01(f *testing.F)    { ev.FuzzProp(f, false, genCase, check) }
+
+// TestAuditDump writes generated (schema, instance, model verdict) triples to VERIF_AUDIT_OUT so that an
+// independent implementation (python-jsonschema's Draft4Validator, tools/audit_refmodel.py) can be compared
+// with the reference model. Evidence about the oracle, not a deciding step.
+func TestAuditDump(t *testing.T) {
+	path := os.Getenv("VERIF_AUDIT_OUT")
+	if path == "" {
+		t.Skip("VERIF_AUDIT_OUT not set")
+	}
+	f, err := os.Create(path)
+	if err != nil {
+		t.Fatal(err)
+	}
+	defer f.Close()
+	enc := json.NewEncoder(f)
+	rapid.Check(t, func(rt *rapid.T) {
+		c := genCase(rt)
+		schemaRaw, err1 := refmodel.Decode([]byte(c.Schema))
+		instRaw, err2 := refmodel.Decode([]byte(c.Instance))
+		if err1 != nil || err2 != nil || !gen.NumbersInDomain(schemaRaw) || !gen.NumbersInDomain(instRaw) {
+			return
+		}
+		// formats off on both sides: python-jsonschema ignores format without a format checker
+		v := (&refmodel.Evaluator{Root: schemaRaw}).Valid(schemaRaw, instRaw)
+		_ = enc.Encode(map[string]any{"schema": json.RawMessage(c.Schema), "instance": json.RawMessage(c.Instance), "model_valid": v})
+	})
+}
